@@ -77,10 +77,9 @@ class VfsRequest(request.SmartServerRequest):
     def translate_client_path(self, relpath):
         """Translate a client-side relative path to a server-side path.
 
-        VFS requests are made with escaped paths so the escaping done in
-        SmartServerRequest.translate_client_path leads to double escaping.
-        Remove it here -- the fact that the result is still escaped means
-        that the str() will not fail on valid input.
+        VFS requests are made with escaped paths, and
+        SmartServerRequest.translate_client_path escapes its result, so the
+        client's escaping is removed first to avoid double escaping.
 
         Args:
             relpath: The relative path from the client.
@@ -88,8 +87,11 @@ class VfsRequest(request.SmartServerRequest):
         Returns:
             A string path suitable for use on the server side.
         """
-        x = request.SmartServerRequest.translate_client_path(self, relpath)
-        return str(urlutils.unescape(x))
+        # Decode the client's escaping *before* the path is checked against
+        # the served root, so that encoded separators or dots ("..%2F") are
+        # seen by that check; the result is escaped exactly once again.
+        decoded = urlutils.unescape(relpath.decode("utf-8")).encode("utf-8")
+        return request.SmartServerRequest.translate_client_path(self, decoded)
 
 
 class HasRequest(VfsRequest):
